@@ -79,7 +79,7 @@ def run_case(case):
     pj = ac.PairJudge(refann.from_structure3d(s))
     nrep, ndem, und = pj.judge(bps, out)
     states = transitions = 0
-    outcomes = {tuple(sorted((b.nt1.number, b.nt2.number, b.lw.value) for b in bps))}
+    outcomes = {tuple(sorted((b.nt1.number, b.nt1.icode or "", b.nt2.number, b.nt2.icode or "", b.lw.value) for b in bps))}
     if case.get("schedules") and _seam[0] and (bps or bph or br) and seams.PAIR_ORDER.last:
         natural, data, rr = seams.PAIR_ORDER.last
         resof = {}
@@ -99,7 +99,7 @@ def run_case(case):
                 continue
             b2 = r2[1][0]
             pj.judge(b2, out, ":schedule")
-            outcomes.add(tuple(sorted((b.nt1.number, b.nt2.number, b.lw.value) for b in b2)))
+            outcomes.add(tuple(sorted((b.nt1.number, b.nt1.icode or "", b.nt2.number, b.nt2.icode or "", b.lw.value) for b in b2)))
         states = len(outcomes)
     u = {}
     for v in out:
